@@ -297,7 +297,22 @@ def request_doc(rng, desc, classes, app, prot, m, call):
     if call['in_header'] is not None and prot != 'xml':
         hdrs = [X.ref_encode(desc, classes, ('ref', c), classes[c], desc['classes'][c]['ns'], desc['classes'][c]['name'], v, rng, tns)
                 for c, v in zip(m['in_header'], call['in_header'])]
+    if prot != 'xml' and m['in_header'] and rng.random() < 0.35:
+        # a foreign header block (think wsse:Security) whose LOCAL name is that of a declared header class: the
+        # declared classes are matched by {namespace}name, so it must be ignored -- also when it stands alone
+        hdrs = foreign_blocks(rng, desc, m['in_header'], hdrs)
     return X.soap_envelope(prot, hdrs, body), body
+
+
+def foreign_blocks(rng, desc, hclasses, hdrs):
+    from lxml import etree
+    out = list(hdrs or [])
+    c = rng.choice(hclasses)
+    fb = etree.Element('{urn:foreign:security}%s' % desc['classes'][c]['name'])
+    for f in X.flat_fields(desc, c)[:2]:
+        etree.SubElement(fb, '{urn:foreign:security}%s' % X.wname(f)).text = rng.choice(['x', '7', 'true'])
+    out.insert(rng.randrange(len(out) + 1), fb)
+    return out
 
 
 def captured_log(desc, classes, svc, plan):
@@ -367,9 +382,9 @@ def g_ufun(call):
 class World(object):
     """one generated universe + service, and one Application per (protocol, validator)"""
 
-    def __init__(self, rng, model_only=True, header_ns_tns=False, n_classes=None, n_methods=None, desc=None, svc=None):
+    def __init__(self, rng, model_only=True, header_ns_tns=False, n_classes=None, n_methods=None, desc=None, svc=None, twins=False):
         if desc is None:
-            desc = X.gen_universe(rng, n_classes=n_classes or rng.randint(2, 5), model_only=model_only)
+            desc = X.gen_universe(rng, n_classes=n_classes or rng.randint(2, 5), model_only=model_only, twins=twins)
             svc = X.gen_service(rng, desc, n_methods=n_methods or rng.randint(3, 5), model_only=model_only,
                                 header_ns_tns=header_ns_tns)
         self.desc, self.svc = desc, svc
@@ -396,7 +411,7 @@ def corr_calls(check, tier):
     n_worlds = 6 if tier == 'quick' else 40
     per_method = 2 if tier == 'quick' else 5
     for wi in range(n_worlds):
-        w = World(rng)
+        w = World(rng, twins=True)
         groups = {}                 # Coq definitions of the world -> [server cases, client request cases, client response cases]
         for prot in PROTS:
             for val in VALIDATORS:
@@ -539,6 +554,49 @@ def client_corr_case(check, w, app, sc, plan, prot, val, mi, m, call, req_cases,
     resp_cases.append(('(%s%d%%nat, %s, %s)' % (pv, mi, X.g_xml(rtree), g_o),
                        '%s/%s %s response %s -> %r' % (prot, val, m['name'], received.decode()[:400], r[:2])))
     check.count(('client_resp', prot, val, received))
+    if r[0] == 'ok' and prot != 'xml' and m['out_header'] and check.rng.random() < 0.7:
+        # the same response with a foreign header block whose local name is that of a declared header class:
+        # the client must read the same value and the same declared headers
+        t2 = copy.deepcopy(rtree)
+        ns = X.NS_SOAP11 if prot == 'soap11' else X.NS_SOAP12
+        h = t2.find('{%s}Header' % ns)
+        if h is None:
+            h = etree.Element('{%s}Header' % ns)
+            t2.insert(0, h)
+        fb = foreign_blocks(check.rng, desc, m['out_header'], [])[0]
+        h.insert(check.rng.randrange(len(h) + 1), fb)
+        raw2 = etree.tostring(t2)
+        try:
+            o2, h2 = Z.client_read(sc, m['name'], raw2)
+        except Exception as e:
+            check.fail('C01|call|client-foreign-header|%s|%s' % (prot, type(e).__name__),
+                       'the Spyne client fails on a response that carries a foreign header block: %r for %s' % (e, raw2.decode()[:500]),
+                       call_replay(w, prot, val, m, call, {'client': 'spyne', 'response': raw2.decode('utf-8', 'replace')}))
+            return
+        if not rets:
+            got2 = ('none',)
+        elif len(rets) == 1:
+            got2 = X.field_from_native(desc, classes, rets[0], o2)
+        else:
+            got2 = ('list', [X.field_from_native(desc, classes, rr, getattr(o2, k, None)) for rr, k in zip(rets, keys)])
+        if h2 is None:
+            got_h2 = None
+        elif len(m['out_header']) == 1:
+            got_h2 = [X.from_native(desc, classes, ('ref', m['out_header'][0]), h2)]
+        else:
+            got_h2 = [X.from_native(desc, classes, ('ref', c), x) for c, x in zip(m['out_header'], h2)]
+        if X.in_universe(got2) and (got_h2 is None or all(X.in_universe(v) for v in got_h2)):
+            resp_cases.append(('(%s%d%%nat, %s, (Ok (%s, %s)))' % (pv, mi, X.g_xml(etree.fromstring(raw2)), X.g_val(got2),
+                                                                    gopt(got_h2, lambda hh: glist([X.g_val(v) for v in hh]))),
+                               '%s/%s %s response with a foreign header block %s' % (prot, val, m['name'], raw2.decode()[:400])))
+        none_like = lambda hh: hh is None or all(v == ('none',) for v in hh)
+        same_h = (none_like(got_h) and none_like(got_h2)) or (got_h is not None and got_h2 is not None and len(got_h) == len(got_h2)
+                                                              and all(X.eq_value(a, b) for a, b in zip(got_h, got_h2)))
+        if not (X.eq_value(got, got2) and same_h):
+            check.fail('C01|call|client-foreign-header|%s|changed-reading' % prot,
+                       'a foreign header block {urn:foreign:security}%s changes what the Spyne client reads: %r / %r instead of %r / %r from %s' % (
+                           fb.tag.split('}')[1], got2, got_h2, got, got_h, raw2.decode()[:500]),
+                       call_replay(w, prot, val, m, call, {'client': 'spyne', 'response': raw2.decode('utf-8', 'replace')}))
 
 
 def mutate_envelope(rng, env):
@@ -592,6 +650,12 @@ def oracle_server_case(check, w, prot, val, m, call, raw, obs, log, client):
     if prot == 'xml':
         ih = None
     want = [(m['name'], ih, args)]
+    got_ih = log[0][1] if len(log) == 1 else None
+    if got_ih is not None and all(v == ('none',) for v in got_ih):
+        got_ih = None        # a Header element without any of the declared blocks: every declared header is absent
+        log = [(log[0][0], None, log[0][2])]
+    if ih is not None and all(v == ('none',) for v in ih):
+        ih = None
     ok = obs[0] == 'return' and len(log) == 1 and log[0][0] == m['name'] \
         and ((log[0][1] is None) == (ih is None)) \
         and (ih is None or (len(ih) == len(log[0][1]) and all(X.eq_value(a, b) for a, b in zip(log[0][1], ih)))) \
